@@ -664,6 +664,12 @@ func (x *Exec) loopModifies(li *loopInfo) (cells map[*ssa.Alloc]bool, heapAll bo
 						comps[c] = true
 					}
 				}
+			case *ssa.Next:
+				if rng, ok := in.Iter.(*ssa.Range); ok {
+					if mt, ok := rng.X.Type().Underlying().(*types.Map); ok {
+						comps["Ghost_vis_"+sanitize(x.X.sortOf(mt.Key()))] = true
+					}
+				}
 			case *ssa.MapUpdate:
 				// a map store changes the three components that model maps of that type
 				if mt, ok := in.Map.Type().Underlying().(*types.Map); ok {
@@ -962,7 +968,7 @@ func (x *Exec) havocConst(prefix, sort string) Term {
 
 func (x *Exec) havocHeapAll(st *State) {
 	for _, c := range x.compOrder {
-		if strings.HasPrefix(c, "G_const_") || strings.HasPrefix(c, "Ghost_last") || strings.HasPrefix(c, "Ghost_calls_") || strings.HasPrefix(c, "Ghost_ret_") || strings.HasPrefix(c, "Ghost_atom_") {
+		if strings.HasPrefix(c, "G_const_") || strings.HasPrefix(c, "Ghost_last") || strings.HasPrefix(c, "Ghost_calls_") || strings.HasPrefix(c, "Ghost_ret_") || strings.HasPrefix(c, "Ghost_atom_") || strings.HasPrefix(c, "Ghost_vis_") {
 			continue
 		}
 		st.heap[c] = x.havocConst(c, x.comps[c])
